@@ -2,4 +2,6 @@ def run(ctx):
     """C09.choose: 'blockwise' is chosen only when the planner said so or the user asked; arg-reductions never get blockwise."""
     from . import plan_proofs
 
-    return plan_proofs.run(ctx, which=("choose_method",), pid="C09")
+    from . import tree_proofs
+
+    return plan_proofs.run(ctx, which=("choose_method",), pid="C09") + " " + tree_proofs.run(ctx, "C09")
